@@ -183,13 +183,14 @@ def dispatchOne (sp : Spec) (w : World) (c : Cmd) : World :=
     match isJoin sp n with
     | some _ =>
       -- Task.defer: one execution per join (unique key); an existing one is put back to WAITING
+      -- and, being re-opened, loses the "processed" flag of its previous completion
       match findByName w n with
       | none =>
         { w with tasks := w.tasks ++ [newRow w c .WAITING],
                  pending := w.pending ++ [Item.postStartTask (n, 0) true] }
       | some r =>
         let w' : World :=
-          if r.state != .WAITING then { w with tasks := setTask w.tasks { r with state := .WAITING } } else w
+          if r.state != .WAITING then { w with tasks := setTask w.tasks { r with state := .WAITING, processed := false } } else w
         { w' with pending := w'.pending ++ [Item.postStartTask (r.name, r.occ) true] }
     | none =>
       { w with tasks := w.tasks ++ [newRow w c .IDLE],
@@ -305,6 +306,9 @@ def step (sp : Spec) (w : World) : Event → World
           -- RunExistingTask: _run_existing refuses a succeeded task with a MistralError
           -- (not a MistralException: it escapes run_task and the transaction rolls back)
           if r.state == .SUCCESS then w
+          -- … ignores the request (it is not a rerun: `resume` queued it for a task that was still
+          -- IDLE) if the task has completed in the meantime: the original start request has run it
+          else if isCompleted r.state then w
           -- … and ignores the request if the task is already running its action
           else if r.state == .RUNNING && hasLiveAction w t then w
           else { w with tasks := setTask w.tasks { r with state := .RUNNING, processed := false },
